@@ -13,6 +13,8 @@ PROPS["C05"] = {
         T("SV.ae_commit_rule", "the stepped model's AppendEntries, every image / state / request: after a successful answer the commit index is the old one, or strictly larger and equal to min(LeaderCommitIndex, last index this request covers) - never over entries the request did not vouch for (the F8 repair), never backwards"),
         T("SV.commitBranch_commit", "the stepped leader loop: the commit index a leader reports is the commitment tracker's, the object C05.commit_is_majority speaks about"),
         T("SV.commitBranch_acks_committed", "and a call is acknowledged only when that commit index has reached its index"),
+        T("SV.pipelineRun_inv", "the stepped pipelined replication (pipelineReplicate / pipelineSend / pipelineDecode), every order of sends and deliveries, every follower, every failing or crashing write on it: the index entered into the commitment table for the follower is the last entry of a delivered request that the follower acknowledged in that request's term, and every request queued or delivered was built by replSetup from the leader's own log"),
+        T("SV.pipeDecode_refusal_ends", "a refusal or a newer term in a pipelined answer credits nothing and ends the pipeline"),
         T("C05.commit_is_majority", "every commitment step: monotone; a change needs a strict voter majority at the new index, >= startIndex, and is maximal"),
         T("C05.commit_monotone", "commit index monotone over every operation sequence"),
         T("C05.model_meets_spec", "the executable Spec evaluated on the implementation is met by the model"),
@@ -133,6 +135,7 @@ PROPS["C04"] = {
         T("SV.ae_success_sound", "the stepped model's AppendEntries, every failure and crash ordinal: a success answer implies term >= own, the previous-entry check passed, and every planned write (truncation, staging, storing) was performed before the answer"),
         T("SV.aePrevOk_true", "what a passed previous-entry check means: PrevLogEntry = 0, or the cached last entry / the snapshot boundary with the announced term, or inside the snapshot, or stored with the announced term"),
         T("SV.aePlan_steps_refuse", "whatever write of AppendEntries fails, the answer is not success"),
+        T("SV.pipelineRun_inv", "in the pipelined mode too, every request queued or delivered is one replSetup built from the leader's log (so replSetup_wellformed speaks about it), for every order of sends and deliveries"),
         T("SV.ae_stale_term_inert", "the stepped model's AppendEntries with an older term: no write, no state change, answer false with the server's term"),
         T("SV.ae_success_log", "the store after a successful AppendEntries (well-formed log, entries with ascending indexes, every failure and crash ordinal): every sent entry above the snapshot is at its index with the sent term (the sent entry itself or the identical-term entry already held), every index below all sent entries holds exactly what it held, the log stays well-formed"),
         T("SV.run_sorted", "started on a well-formed image, every run of the stepped server (all events, failures, crashes) keeps the log well-formed: ae_success_log's hypothesis holds in every reachable state"),
@@ -244,6 +247,8 @@ PROPS["C12"] = {
         T("SV.afterAE_refusal_moves_down", "the stepped replication routine never repeats a refused request: a refusal moves nextIndex strictly down (never below 1, never above the follower's hint + 1) and the loop goes on"),
         T("SV.afterAE_ack_moves_up", "an acknowledgement moves nextIndex just past the last entry sent and records exactly that entry as stored by the follower, never lowering what was recorded"),
         T("SV.afterAE_newer_term_stops", "a newer term in an answer stops replication at once"),
+        T("SV.pipeDecode_refusal_ends", "pipelined mode: a refused request ends the pipeline with the replication state untouched, handing the follower back to replicateTo, whose refusal handling (afterAE_refusal_moves_down) walks nextIndex back"),
+        T("SV.pipeDecode_credit", "pipelined mode: the decoder moves nextIndex and the recorded match only on an acknowledgement, to exactly the last entry of the acknowledged request"),
         T("SV.replSetup_wellformed", "every request is built from the leader's own log, numbered from PrevLogEntry + 1 (the hypothesis under which SV.ae_refines_core identifies the follower's merge with the cluster model's, for which RP.catchup_terminates is proved)"),
     ],
     "engines": [cluster("C12", 200, 5000), universe("C12", 3000, 60000)],
@@ -365,7 +370,7 @@ PROPS["C11"]["engines"].append(SINKFAULT)
 
 PROPS["C07"]["engines"].append(handlers("C07", 3000, 60000))
 
-CATCHUP = {"engine": "catchup", "bin": "h2.test", "quick": ["-n", "4000"], "thorough": ["-n", "80000"]}
+CATCHUP = {"engine": "catchup", "bin": "h2.test", "quick": ["-n", "6000"], "thorough": ["-n", "100000"]}
 PROPS["C12"]["engines"].append(CATCHUP)
 PROPS["C04"]["engines"].append(CATCHUP)
 PROPS["C05"]["engines"].append(CATCHUP)
@@ -403,4 +408,4 @@ PROPS["C13"]["theorems"] += [
 ]
 PROPS["C13"]["assumptions"].append("in a third of the leader engine's cases virtual time passes in ticks of 250 ms (LeaderLeaseTimeout 250 ms, HeartbeatTimeout 1 s): the real lease timer, checkLeaderLease and its re-arming run and are compared with SV.tickStep; the Spec clause leaseRule judges the observed run (two leases of silence from every other voter leave no leader; a quorum heard within the lease is never deposed)")
 
-HOOK_COMMITS = ["dfecdf5", "9779dc0", "4292c91", "99b3530", "d0a2b1a", "e08c15a", "763d9c7"]
+HOOK_COMMITS = ["dfecdf5", "9779dc0", "4292c91", "99b3530", "d0a2b1a", "e08c15a", "763d9c7", "eee3e4b"]
